@@ -104,6 +104,15 @@ class C07(Prop):
                 if not tor:
                     s["pkg"] = "py"
                 yield s
+        # observables that are views of the state's own arrays (its stabilizers, its whole tableau), and queries on ONE live
+        # state object between in-place changes (rotation, measurement, gate)
+        for n in (1, 2):
+            tabs = [(m, r) for m in self.maps[n] for r in range(n + 1)]
+            for j, (m, r) in enumerate(tabs if n == 1 else rng.sample(tabs, 150)):
+                yield {"k": "expect_self", "rows": ins_to_state(m), "r": r, "what": ("stabilizers", "all")[j % 2], "pkg": "py"}
+                if j % 3 == 0:
+                    yield {"k": "live", "rows": ins_to_state(m), "r": r, "seed": self.seed + j,
+                           "ops": [[rng.randrange(4) for _ in range(n)] + [rng.choice((0, 2))] for _ in range(5)], "pkg": "py"}
         DTS = (("uint8", "int64"), ("int8", "int32"), ("uint64", "uint8"), ("float64", "int64"), ("uint8", "uint8"), ("int32", "float64"), ("int64", "uint16"))
         for n in (1, 2):
             tabs = [(m, r) for m in self.maps[n] for r in range(n + 1)]
@@ -176,6 +185,39 @@ class C07(Prop):
             S = be.state(scn["rows"], scn["r"])
         except Exception as e:
             return [{"op": k, "pre": pre, "exc": _exc(e)}]
+        if k == "expect_self":
+            rec = {"op": "expect", "fn": "expect(view of self)", "pre": pre}
+            try:
+                O = S.stabilizers if scn["what"] == "stabilizers" else S[:]
+                rec["obs"] = be.p_list(O)
+                if not all(w[-1] in (0, 2) for w in rec["obs"]):
+                    return []
+                rec["vals"] = be.p_ints(S.expect(O))
+                rec["pre1"] = be.p_state(S)
+            except Exception as e:
+                rec["exc"] = _exc(e)
+            return [rec]
+        if k == "live":
+            out = []
+            ops = scn["ops"]
+            try:
+                for t, g in enumerate(ops):
+                    cur = be.p_state(S)
+                    rec = {"op": "expect", "fn": "live", "pre": cur, "obs": ops}
+                    rec["vals"] = be.p_ints(S.expect(be.plist(ops)))
+                    rec["pre1"] = be.p_state(S)
+                    out.append(rec)
+                    if any(g[:-1]):
+                        if t % 3 == 0:
+                            S.rotate_by(be.pauli(g))
+                        elif t % 3 == 1:
+                            be.seed(scn["seed"] + t)
+                            S.measure(be.plist([g]))
+                        else:
+                            be.circuit.H(t % n).forward(S)
+            except Exception as e:
+                out.append({"op": "expect", "fn": "live", "pre": pre, "exc": _exc(e)})
+            return out
         if k == "expect":
             calls = [("StabilizerState.expect", lambda O: S.expect(O))]
             calls.append(("stabilizer_expect", lambda O: be.utils.stabilizer_expect(S.gs, S.ps, O.gs, O.ps, S.r)))
